@@ -119,7 +119,18 @@ export function flattenStringDiff(
   }
   let lineToChar = [0].concat(accumulateLengths(val));
   let flattened: IDiffArrayEntry[] = [];
-  for (let e of diff) {
+  // Lines inserted before line k come before a patch or removal of line k
+  // (entries collected from several merge decisions are not ordered that way)
+  let ordered = diff
+    .map((e, i) => ({ e, i }))
+    .sort(
+      (x, y) =>
+        x.e.key - y.e.key ||
+        Number(x.e.op !== 'addrange') - Number(y.e.op !== 'addrange') ||
+        x.i - y.i,
+    )
+    .map((x) => x.e);
+  for (let e of ordered) {
     // Frist validate op:
     validateStringDiff(val, e, lineToChar);
     let lineOffset = lineToChar[e.key];
